@@ -1,3 +1,122 @@
-From UV Require Import Lib.Base Model.FdLedger.
-Example C15_placeholder : fst (run false [(0, false)] [OLoopInit 0 true; OLoopClose] []) = fst (run false [(0, false)] [OLoopInit 0 true; OLoopClose] []).
-Proof. reflexivity. Qed.
+(* C15 - Descriptor hygiene.  Only statements, each closed by [exact] of a lemma proved in
+   Proofs/FdLedgerProofs.v, with Print Assumptions beneath.
+   Model/FdLedger.v: the descriptor table as a ledger fd -> (owner, close-on-exec, created-by-libuv);
+   [run fixed fds ops orc]: a fresh process holding descriptors [fds] runs the libuv operations [ops];
+   [orc] is the kernel's answer at each creation point (ok / EMFILE-ENFILE / other failure).
+   [fixed] selects the variant of uv_loop_init with notes/C15_fix_loop_init_leak.diff applied. *)
+From UV Require Import Lib.Base Model.FdLedger Proofs.FdLedgerProofs.
+
+(* Every creation step of every operation carries the atomic close-on-exec flag: in the trace of
+   every program, for every oracle, each ECreate event has cx = true, and in the table reached
+   every descriptor created by libuv (e_lib) has FD_CLOEXEC (e_cx). *)
+Theorem C15_cloexec_by_construction :
+  forall (fixed : bool) (fds : list (nat * bool)) (ops : list op) (orc : list ans),
+  let st := run fixed fds ops orc in
+  (forall k cx fs os, In (ECreate k cx fs os) (i_tr (snd st)) -> cx = true) /\
+  (forall fd e, In (fd, e) (i_led (snd st)) -> e_lib e = true -> e_cx e = true).
+Proof. exact cloexec_by_construction. Qed.
+Print Assumptions C15_cloexec_by_construction.
+
+(* Full statement "every close libuv performs targets a table entry it owns": refuted by
+   uv_spawn's error path after a failing uv__stream_open (process.c:1057-1092): the descriptor
+   of an already opened stdio stream is closed by uv__stream_close and then again by number
+   (ERawClose _ None = the number is not open any more; in a threaded program it may by then
+   belong to somebody else). *)
+Theorem C15_never_close_foreign_refuted :
+  exists (fds : list (nat * bool)) (ops : list op) (orc : list ans) (fd : nat),
+  In (ERawClose fd None) (i_tr (snd (run false fds ops orc))).
+Proof. exists stdio3, double_close_prog, [], 13. exact double_close_witness. Qed.
+Print Assumptions C15_never_close_foreign_refuted.
+
+(* What holds for every program and oracle: every close through a descriptor field (EClose) and
+   every field reset that spares a stdio descriptor (EKeep) hits an entry owned by libuv (loop,
+   handle, process-wide or call-local) - never the caller's (OUser / OGiven). *)
+Theorem C15_never_close_foreign_partial :
+  forall (fixed : bool) (fds : list (nat * bool)) (ops : list op) (orc : list ans) (fd : nat) (o : owner),
+  In (EClose fd o) (i_tr (snd (run fixed fds ops orc))) \/
+  In (EKeep fd o) (i_tr (snd (run fixed fds ops orc))) -> is_lib o = true.
+Proof. exact never_close_foreign. Qed.
+Print Assumptions C15_never_close_foreign_partial.
+
+(* Descriptors 0-2 wrapped in a stream handle survive uv_close: in any state, uv_close of an open
+   tcp/pipe handle h leaves the entry held in h's io_watcher.fd in the table when its number is
+   <= 2, and hands it back to the caller. *)
+Theorem C15_stdio_survives_uv_close :
+  forall (m : mstate) (s : ist) (h fd : nat) (e : entry),
+  m_abort m = false -> is_open m h = true -> is_stream (ty_of m h) = true ->
+  In (fd, e) (i_led s) -> e_owner e = OHandle h HIo -> fd <= 2 ->
+  In (fd, set_owner OUser e) (i_led (snd (step (m, s) (OClose h)))).
+Proof. exact stdio_survives_uv_close. Qed.
+Print Assumptions C15_stdio_survives_uv_close.
+
+(* Balance, for every program, every oracle, every initial table: if the program's last call
+   uv_loop_close() returns 0 (which requires all handles closed), every descriptor left in the table
+   for which libuv is responsible is the process-wide signal lock pipe - or, in the current code,
+   the backend descriptor of a loop instance whose uv_loop_init failed after epoll_create1. *)
+Theorem C15_ledger_balanced_general :
+  forall (fixed : bool) (fds : list (nat * bool)) (ops : list op) (orc : list ans),
+  let st := run fixed fds (ops ++ [OLoopClose]) orc in
+  hd (ERet RC_ERR) (i_tr (snd st)) = ERet RC_OK ->
+  forall fd e, In (fd, e) (i_led (snd st)) -> is_lib (e_owner e) = true ->
+    (exists w, e_owner e = OProc w) \/
+    (exists l, e_owner e = OLoop l SBackend /\ In l (m_leaked (fst st))).
+Proof. intros fixed fds ops orc st H. exact (proj2 (proj2 (ledger_balanced_gen fixed fds ops orc H))). Qed.
+Print Assumptions C15_ledger_balanced_general.
+
+(* With the repair of notes/C15_fix_loop_init_leak.diff (fixed = true) the clause holds in full. *)
+Theorem C15_ledger_balanced :
+  forall (fds : list (nat * bool)) (ops : list op) (orc : list ans),
+  let st := run true fds (ops ++ [OLoopClose]) orc in
+  hd (ERet RC_ERR) (i_tr (snd st)) = ERet RC_OK ->
+  forall fd e, In (fd, e) (i_led (snd st)) -> is_lib (e_owner e) = true -> exists w, e_owner e = OProc w.
+Proof.
+  intros fds ops orc st H fd e Hin Hl. subst st.
+  destruct (ledger_balanced_gen true fds ops orc H) as (Hf & (Hk & _) & Hb).
+  destruct (Hb fd e Hin Hl) as [Hw | (l & _ & Hl')]; [exact Hw|].
+  cbn zeta in Hk, Hf, Hl'. rewrite (Hk Hf) in Hl'. destruct Hl'.
+Qed.
+Print Assumptions C15_ledger_balanced.
+
+(* The current code: refuted.  uv_loop_init fails after uv__platform_loop_init (here: the
+   cloexec rwlock cannot be initialised; the same with EMFILE at the signal pipe or the eventfd),
+   the caller retries, closes the loop successfully - and descriptor 3, the first instance's
+   epoll descriptor, is still open. *)
+Theorem C15_loop_init_leaks_backend_fd_refuted :
+  exists (fds : list (nat * bool)) (ops : list op) (orc : list ans),
+  let st := run false fds (ops ++ [OLoopClose]) orc in
+  hd (ERet RC_ERR) (i_tr (snd st)) = ERet RC_OK /\
+  ~ (forall fd e, In (fd, e) (i_led (snd st)) -> is_lib (e_owner e) = true -> exists w, e_owner e = OProc w).
+Proof.
+  exists stdio3, leak_prog, []. destruct leak_witness as [H1 H2]. split; [exact H1|].
+  intros H. destruct (H _ _ H2 eq_refl) as [w Hw]. discriminate Hw.
+Qed.
+Print Assumptions C15_loop_init_leaks_backend_fd_refuted.
+
+(* ... and what holds for it: programs in which no uv_loop_init failed late balance. *)
+Theorem C15_ledger_balanced_partial :
+  forall (fds : list (nat * bool)) (ops : list op) (orc : list ans),
+  let st := run false fds (ops ++ [OLoopClose]) orc in
+  hd (ERet RC_ERR) (i_tr (snd st)) = ERet RC_OK ->
+  m_leaked (fst st) = [] ->
+  forall fd e, In (fd, e) (i_led (snd st)) -> is_lib (e_owner e) = true -> exists w, e_owner e = OProc w.
+Proof.
+  intros fds ops orc st H Hk fd e Hin Hl. subst st.
+  destruct (ledger_balanced_gen false fds ops orc H) as (_ & _ & Hb).
+  destruct (Hb fd e Hin Hl) as [Hw | (l & _ & Hl')]; [exact Hw|].
+  cbn zeta in Hl'. rewrite Hk in Hl'. destruct Hl'.
+Qed.
+Print Assumptions C15_ledger_balanced_partial.
+
+(* The hypotheses are satisfiable by a non-trivial run: listen, connect, accept, close
+   everything, uv_loop_close() = 0, nothing leaked, table = stdio + lock pipe. *)
+Example C15_balanced_example :
+  let st := run false stdio3 (tcp_prog ++ [OLoopClose]) [] in
+  hd (ERet RC_ERR) (i_tr (snd st)) = ERet RC_OK /\ m_leaked (fst st) = [] /\ length (i_led (snd st)) = 5.
+Proof. exact tcp_example. Qed.
+
+(* The repaired variant on the refutation witness: only stdio and the lock pipe remain. *)
+Example C15_fixed_on_witness :
+  i_led (snd (run true stdio3 (leak_prog ++ [OLoopClose]) [])) =
+  [(6, mkE (OProc true) true true); (5, mkE (OProc false) true true);
+   (0, mkE OUser false false); (1, mkE OUser false false); (2, mkE OUser false false)].
+Proof. exact leak_witness_fixed. Qed.
